@@ -12,6 +12,7 @@ import warnings
 
 from .. import encworld, seams, world
 from ..ref import armor as rarmor
+from ..core import CallTimeout, watchdog
 from ..ref.wire import split_packets
 
 ID = 'C10'
@@ -99,6 +100,42 @@ def _make(pgpy, key, st, ctx):
     for k, v in st['headers']:
         obj.ascii_headers[k] = v
     return obj, label
+
+
+def _slow_parse_ahead(text):
+    """does the (corrupted) armored text hold a signature packet that declares a subpacket longer than 70000 octets?"""
+    from ..ref.wire import WireError, max_declared_subpacket_length, read_packet
+    import base64
+    import binascii
+    ls = text.replace('\r\n', '\n').split('\n')
+    try:
+        i = max(k for k, ln in enumerate(ls) if ln.startswith('-----BEGIN PG'))
+        while ls[i].strip() != '':
+            i += 1
+        body = []
+        for ln in ls[i + 1:]:
+            if ln.startswith('=') or ln.startswith('-----'):
+                break
+            body.append(ln.strip())
+        data = base64.b64decode(''.join(body).encode('ascii', 'ignore') + b'==')
+    except (ValueError, IndexError, binascii.Error):
+        return False
+    off = 0
+    while off < len(data):
+        try:
+            pkt, off = read_packet(data, off)
+        except (WireError, IndexError):
+            return False
+        b = pkt.body
+        if pkt.tag == 2 and len(b) > 8 and b[0] == 4:
+            hl = int.from_bytes(b[4:6], 'big')
+            ul = int.from_bytes(b[6 + hl:8 + hl], 'big')
+            try:
+                if max(max_declared_subpacket_length(b[6:6 + hl]), max_declared_subpacket_length(b[8 + hl:8 + hl + ul])) > 70000:
+                    return True
+            except (WireError, IndexError, ValueError):
+                pass
+    return False
 
 
 def execute(case, ctx):
@@ -245,14 +282,23 @@ def execute(case, ctx):
             mut = '\n'.join(ls)
             if mut == text:
                 continue
+            if _slow_parse_ahead(mut):
+                # a corrupted character that turns a subpacket length into a 32-bit one sends PGPy's flag-subpacket
+                # parser round a loop of up to 2^32 turns: it ends, hours later; not a statement of this property
+                ctx.probe('f6_skipped_slow_parse')
+                continue
             ctx.fault('F6_' + place)
             judged_fault = True
             ctx.checked()
             with warnings.catch_warnings(record=True) as wl:
                 warnings.simplefilter('always')
                 try:
-                    o3 = load(mut)
-                    out3 = bytes(o3)
+                    with watchdog(60):
+                        o3 = load(mut)
+                        out3 = bytes(o3)
+                except CallTimeout:
+                    ctx.probe('pgpy_call_timeout')
+                    continue
                 except Exception:
                     ctx.probe('f6_raised')
                     continue
